@@ -26,7 +26,8 @@ CONSTANTS
   Reasons,     \* reason codes the broker puts into PUBACK/PUBREC/PUBCOMP
   MaxCancel,   \* how many futures/streams may be dropped
   MaxSpur,     \* how many polls without a wake-up
-  Endings,     \* subset of {"eof","ctxdrop","srvdisc","handles"}
+  Endings,     \* subset of {"eof","ctxdrop","srvdisc","handles","resume"}
+  SeiSet,      \* session expiry intervals to consider: subset of {"zero", "finite", "never"}  (C17)
   Dev          \* deviations switched on
 
 VARIABLES
@@ -37,12 +38,14 @@ VARIABLES
   bk,          \* broker: requests received and not yet acknowledged, set of <<acktype, id, op>>
   bq2,         \* broker: inbound QoS 2 identifiers sent and not yet released (with their content tag)
   nIn, nCancel, nSpur, nTag,
+  resumeQ,     \* what a resumed session still has to re-send before anything else (C17)
+  nResume,     \* number of reconnections so far
   woken,       \* tasks whose waker has fired and that have not been polled since
   g,           \* observers
   sched        \* the behaviour as a harness script (history; hidden by the VIEW)
 
-vars == <<S, msgQ, netIn, netEnd, ph, cret, ops, sts, nextPid, nextSid, handles, bk, bq2, nIn, nCancel, nSpur, nTag, woken, g, sched>>
-view == <<S, msgQ, netIn, netEnd, ph, cret, ops, sts, nextPid, nextSid, handles, bk, bq2, nIn, nCancel, nSpur, nTag, woken, g>>
+vars == <<S, msgQ, netIn, netEnd, ph, cret, ops, sts, nextPid, nextSid, handles, bk, bq2, nIn, nCancel, nSpur, nTag, resumeQ, nResume, woken, g, sched>>
+view == <<S, msgQ, netIn, netEnd, ph, cret, ops, sts, nextPid, nextSid, handles, bk, bq2, nIn, nCancel, nSpur, nTag, resumeQ, nResume, woken, g>>
 
 Ops == 1..NOps
 D(d) == d \in Dev
@@ -67,9 +70,10 @@ Init ==
   /\ ops = [o \in Ops |-> NoOp] /\ sts = [o \in Ops |-> NoSt]
   /\ nextPid = 1 /\ nextSid = 1 /\ handles = 1
   /\ bk = {} /\ bq2 = {} /\ nIn = 0 /\ nCancel = 0 /\ nSpur = 0 /\ nTag = 0
+  /\ resumeQ = <<>> /\ nResume = 0
   /\ woken = {CtxT}
-  /\ g = [out |-> 0, ids |-> {}, req |-> <<>>, acked |-> {}, subs |-> {}, rx2 |-> {}, exp |-> [o \in Ops |-> <<>>], yielded |-> [o \in Ops |-> {}],
-          discW |-> FALSE, causes |-> {}, bad |-> {}]
+  /\ \E sei0 \in SeiSet : g = [sei |-> sei0, out |-> 0, ids |-> {}, req |-> <<>>, acked |-> {}, subs |-> {}, rx2 |-> {}, exp |-> [o \in Ops |-> <<>>], yielded |-> [o \in Ops |-> {}],
+          discW |-> FALSE, causes |-> {}, unacked |-> <<>>, owed |-> <<>>, everSent |-> <<>>, bad |-> {}]
   /\ sched = <<>>
 
 Task(kind, o) == <<kind, o>>
@@ -85,7 +89,7 @@ Call(o, k) ==
                                             !.req = [NoPk EXCEPT !.t = TypeOf(k), !.qos = QosOf(k), !.len = LenOf(k), !.tag = ToString(o)]]]
   /\ woken' = woken \cup {Task("op", o)}
   /\ Sch([a |-> "call", op |-> o, k |-> k])
-  /\ UNCHANGED <<S, msgQ, netIn, netEnd, ph, cret, sts, nextPid, nextSid, handles, bk, bq2, nIn, nCancel, nSpur, nTag, g>>
+  /\ UNCHANGED <<S, msgQ, netIn, netEnd, ph, cret, sts, nextPid, nextSid, handles, bk, bq2, nIn, nCancel, nSpur, nTag, resumeQ, nResume, g>>
 
 \* one poll of the future of operation o (the executor polls it because it was woken, or spuriously)
 DoPollOp(o, spurious) ==
@@ -124,13 +128,13 @@ PollOp(o) ==
   /\ ops[o].st \in {"built", "wait1", "wait2"} /\ Task("op", o) \in woken
   /\ DoPollOp(o, FALSE)
   /\ Sch([a |-> "poll", t |-> "op", k |-> o])
-  /\ UNCHANGED <<S, netIn, netEnd, ph, cret, handles, bk, bq2, nIn, nCancel, nSpur, nTag>>
+  /\ UNCHANGED <<S, netIn, netEnd, ph, cret, handles, bk, bq2, nIn, nCancel, nSpur, nTag, resumeQ, nResume>>
 
 SpurPollOp(o) ==
   /\ ops[o].st \in {"wait1", "wait2"} /\ Task("op", o) \notin woken /\ nSpur < MaxSpur
   /\ DoPollOp(o, TRUE) /\ nSpur' = nSpur + 1
   /\ Sch([a |-> "poll", t |-> "op", k |-> o])
-  /\ UNCHANGED <<S, netIn, netEnd, ph, cret, handles, bk, bq2, nIn, nCancel, nTag>>
+  /\ UNCHANGED <<S, netIn, netEnd, ph, cret, handles, bk, bq2, nIn, nCancel, nTag, resumeQ, nResume>>
 
 DropOp(o) ==
   /\ ops[o].st \in {"built", "wait1", "wait2"} /\ nCancel < MaxCancel
@@ -139,7 +143,7 @@ DropOp(o) ==
   /\ woken' = woken \ {Task("op", o)}
   /\ nCancel' = nCancel + 1
   /\ Sch([a |-> "drop", t |-> "op", k |-> o])
-  /\ UNCHANGED <<S, msgQ, netIn, netEnd, ph, cret, nextPid, nextSid, handles, bk, bq2, nIn, nSpur, nTag, g>>
+  /\ UNCHANGED <<S, msgQ, netIn, netEnd, ph, cret, nextPid, nextSid, handles, bk, bq2, nIn, nSpur, nTag, resumeQ, nResume, g>>
 
 \* one poll of the stream of subscribe call o
 DoPollSt(o, spurious) ==
@@ -163,13 +167,13 @@ PollSt(o) ==
   /\ sts[o].pollable /\ Task("st", o) \in woken
   /\ DoPollSt(o, FALSE)
   /\ Sch([a |-> "poll", t |-> "st", k |-> o])
-  /\ UNCHANGED <<S, msgQ, netIn, netEnd, ph, cret, ops, nextPid, nextSid, handles, bk, bq2, nIn, nCancel, nSpur, nTag>>
+  /\ UNCHANGED <<S, msgQ, netIn, netEnd, ph, cret, ops, nextPid, nextSid, handles, bk, bq2, nIn, nCancel, nSpur, nTag, resumeQ, nResume>>
 
 SpurPollSt(o) ==
   /\ sts[o].pollable /\ Task("st", o) \notin woken /\ nSpur < MaxSpur
   /\ DoPollSt(o, TRUE) /\ nSpur' = nSpur + 1
   /\ Sch([a |-> "poll", t |-> "st", k |-> o])
-  /\ UNCHANGED <<S, msgQ, netIn, netEnd, ph, cret, ops, nextPid, nextSid, handles, bk, bq2, nIn, nCancel, nTag>>
+  /\ UNCHANGED <<S, msgQ, netIn, netEnd, ph, cret, ops, nextPid, nextSid, handles, bk, bq2, nIn, nCancel, nTag, resumeQ, nResume>>
 
 DropSt(o) ==
   /\ sts[o].pollable /\ nCancel < MaxCancel
@@ -178,14 +182,14 @@ DropSt(o) ==
   /\ nCancel' = nCancel + 1
   /\ g' = [g EXCEPT !.exp[o] = <<>>]
   /\ Sch([a |-> "drop", t |-> "st", k |-> o])
-  /\ UNCHANGED <<S, msgQ, netIn, netEnd, ph, cret, ops, nextPid, nextSid, handles, bk, bq2, nIn, nSpur, nTag>>
+  /\ UNCHANGED <<S, msgQ, netIn, netEnd, ph, cret, ops, nextPid, nextSid, handles, bk, bq2, nIn, nSpur, nTag, resumeQ, nResume>>
 
 DropHandle ==
   /\ handles > 0 /\ "handles" \in Endings /\ \A o \in Ops : ops[o].st # "built"
   /\ handles' = handles - 1
   /\ woken' = woken \cup {CtxT}
   /\ Sch([a |-> "drop", t |-> "h", k |-> 0])
-  /\ UNCHANGED <<S, msgQ, netIn, netEnd, ph, cret, ops, sts, nextPid, nextSid, bk, bq2, nIn, nCancel, nSpur, nTag, g>>
+  /\ UNCHANGED <<S, msgQ, netIn, netEnd, ph, cret, ops, sts, nextPid, nextSid, bk, bq2, nIn, nCancel, nSpur, nTag, resumeQ, nResume, g>>
 
 \* ---------------------------------------------------------------------------------------------
 \* the actor, with the switchable deviations
@@ -222,7 +226,8 @@ HandlePktD(St, p) ==
   ELSE IF D("ReturnOnSuback") /\ p.t = "SUBACK" THEN [ref EXCEPT !.ret = <<Res("ret", "Ok", 0, "")>>]
   ELSE ref
 
-CtxCanStep == ph = "run" /\ cret = <<>> /\ CtxT \in woken
+CtxCanStepAny == ph = "run" /\ cret = <<>> /\ CtxT \in woken
+CtxCanStep == CtxCanStepAny /\ resumeQ = <<>>
 
 ExpectedAck(p) == IF p.t = "PUBLISH" /\ p.qos = 1 THEN <<Ack("PUBACK", p.id)>>
                   ELSE IF p.t = "PUBLISH" /\ p.qos = 2 THEN <<Ack("PUBREC", p.id)>>
@@ -272,7 +277,10 @@ CtxTakeMsg ==
                        ELSE {}
                  b8 == IF wrote /\ g.discW THEN {<<"C13", "write-after-disconnect">>} ELSE {}
                  b9 == IF wrote /\ pk.t = "SUBSCRIBE" /\ \E r \in g.subs : r[1] = m.sid THEN {<<"C11", "subscription-identifier-reused">>} ELSE {}
-             IN [g EXCEPT !.bad = @ \cup b1 \cup b2 \cup b3 \cup b4 \cup b5 \cup b6 \cup b7 \cup b8 \cup b9,
+                 b10 == IF wrote /\ g.owed # <<>> THEN {<<"C17", "new-traffic-before-retransmission">>} ELSE {}
+             IN [g EXCEPT !.bad = @ \cup b1 \cup b2 \cup b3 \cup b4 \cup b5 \cup b6 \cup b7 \cup b8 \cup b9 \cup b10,
+                          !.unacked = IF isNewPub \/ (wrote /\ pk.t = "PUBREL") THEN Append(@, pk) ELSE @,
+                          !.everSent = IF isNewPub \/ (wrote /\ pk.t = "PUBREL") THEN Append(@, [t |-> pk.t, id |-> pk.id, pk |-> pk]) ELSE @,
                           !.out = IF isNewPub THEN @ + 1 ELSE @,
                           !.ids = IF usesId THEN @ \cup {pk.id} ELSE @,
                           !.req = IF wrote /\ ackt # "NONE" THEN Append(@, <<ackt, IF pk.t = "PINGREQ" THEN 0 ELSE pk.id, m.op>>) ELSE @,
@@ -281,7 +289,7 @@ CtxTakeMsg ==
                           !.causes = IF wrote /\ pk.t = "DISCONNECT" THEN @ \cup {"userdisc"} ELSE @]
   /\ msgQ' = Tail(msgQ)
   /\ Sch([a |-> "poll", t |-> "ctx", k |-> 0])
-  /\ UNCHANGED <<netIn, netEnd, ph, nextPid, nextSid, handles, bq2, nIn, nCancel, nSpur, nTag>>
+  /\ UNCHANGED <<netIn, netEnd, ph, nextPid, nextSid, handles, bq2, nIn, nCancel, nSpur, nTag, resumeQ, nResume>>
 
 CtxTakePkt ==
   /\ CtxCanStep /\ netIn # <<>>
@@ -312,20 +320,25 @@ CtxTakePkt ==
              IN [g EXCEPT !.bad = @ \cup b1 \cup b2 \cup b3 \cup b4 \cup b5,
                           !.req = IF isAck /\ owner # 0 THEN DropAt(@, mineIdx) ELSE @,
                           !.acked = IF isAck /\ owner # 0 THEN @ \cup {<<p.t, p.id, owner, p.rc>>} ELSE @,
-                          !.out = IF frees /\ owner # 0 THEN @ - 1 ELSE @,
+                          !.out = IF frees /\ owner # 0 /\ @ > 0 THEN @ - 1 ELSE @,
+                          !.everSent = LET k == FirstIdx(@, LAMBDA u : u.id = p.id /\ ((p.t = "PUBACK" /\ u.t = "PUBLISH") \/ (p.t = "PUBCOMP" /\ u.t = "PUBREL")
+                                                                              \/ (p.t = "PUBREC" /\ IsFail(p.rc) /\ u.t = "PUBLISH")))
+                                       IN IF k = 0 THEN @ ELSE DropAt(@, k),
+                          !.unacked = LET k == FirstIdx(@, LAMBDA u : u.id = p.id /\ ((p.t \in {"PUBACK", "PUBREC"} /\ u.t = "PUBLISH") \/ (p.t = "PUBCOMP" /\ u.t = "PUBREL")))
+                                      IN IF k = 0 THEN @ ELSE DropAt(@, k),
                           !.ids = IF ends /\ owner # 0 THEN @ \ {p.id} ELSE @,
                           !.rx2 = IF p.t = "PUBLISH" /\ p.qos = 2 THEN @ \cup {p.id} ELSE IF p.t = "PUBREL" THEN @ \ {p.id} ELSE @,
                           !.exp = [o \in Ops |-> IF (\E r \in targets : r[2] = o) /\ sts[o].rx THEN Append(@[o], p.tag) ELSE @[o]],
                           !.causes = IF p.t = "DISCONNECT" THEN @ \cup {"srvdisc"} ELSE @]
   /\ netIn' = Tail(netIn)
   /\ Sch([a |-> "poll", t |-> "ctx", k |-> 0])
-  /\ UNCHANGED <<msgQ, netEnd, ph, nextPid, nextSid, handles, bk, bq2, nIn, nCancel, nSpur, nTag>>
+  /\ UNCHANGED <<msgQ, netEnd, ph, nextPid, nextSid, handles, bk, bq2, nIn, nCancel, nSpur, nTag, resumeQ, nResume>>
 
 CtxSeesEnd ==
   /\ CtxCanStep /\ netIn = <<>> /\ netEnd = "eof"
   /\ cret' = <<Res("ret", "SocketClosed", 0, "")>>
   /\ Sch([a |-> "poll", t |-> "ctx", k |-> 0])
-  /\ UNCHANGED <<S, msgQ, netIn, netEnd, ph, ops, sts, nextPid, nextSid, handles, bk, bq2, nIn, nCancel, nSpur, nTag, woken, g>>
+  /\ UNCHANGED <<S, msgQ, netIn, netEnd, ph, ops, sts, nextPid, nextSid, handles, bk, bq2, nIn, nCancel, nSpur, nTag, resumeQ, nResume, woken, g>>
 
 LiveOps == {o \in Ops : ops[o].st \in {"built", "wait1", "wait2"}}
 
@@ -333,26 +346,26 @@ CtxSeesNoHandles ==
   /\ CtxCanStep /\ msgQ = <<>> /\ handles = 0 /\ LiveOps = {}
   /\ cret' = <<Res("ret", "HandleClosed", 0, "")>>
   /\ Sch([a |-> "poll", t |-> "ctx", k |-> 0])
-  /\ UNCHANGED <<S, msgQ, netIn, netEnd, ph, ops, sts, nextPid, nextSid, handles, bk, bq2, nIn, nCancel, nSpur, nTag, woken, g>>
+  /\ UNCHANGED <<S, msgQ, netIn, netEnd, ph, ops, sts, nextPid, nextSid, handles, bk, bq2, nIn, nCancel, nSpur, nTag, resumeQ, nResume, woken, g>>
 
 CtxReturn ==      \* run() returns what the step decided
   /\ ph = "run" /\ cret # <<>>
   /\ ph' = "ret"
   /\ woken' = woken \ {CtxT}
   /\ g' = IF g.causes = {} /\ netEnd = "open" /\ (handles > 0 \/ LiveOps # {}) THEN Bad(<<"C13", "returned-without-cause">>) ELSE g
-  /\ UNCHANGED <<S, msgQ, netIn, netEnd, cret, ops, sts, nextPid, nextSid, handles, bk, bq2, nIn, nCancel, nSpur, nTag, sched>>
+  /\ UNCHANGED <<S, msgQ, netIn, netEnd, cret, ops, sts, nextPid, nextSid, handles, bk, bq2, nIn, nCancel, nSpur, nTag, resumeQ, nResume, sched>>
 
 CtxYield ==       \* nothing left to do: the poll returns Pending (wakers registered on both sources)
   /\ CtxCanStep /\ msgQ = <<>> /\ netIn = <<>> /\ netEnd = "open" /\ (handles > 0 \/ LiveOps # {})
   /\ woken' = woken \ {CtxT}
-  /\ UNCHANGED <<S, msgQ, netIn, netEnd, ph, cret, ops, sts, nextPid, nextSid, handles, bk, bq2, nIn, nCancel, nSpur, nTag, g, sched>>
+  /\ UNCHANGED <<S, msgQ, netIn, netEnd, ph, cret, ops, sts, nextPid, nextSid, handles, bk, bq2, nIn, nCancel, nSpur, nTag, resumeQ, nResume, g, sched>>
 
 CtxSpur ==        \* a poll of the actor without a wake-up: by NoLostWakeup there is nothing to do
   /\ ph = "run" /\ cret = <<>> /\ CtxT \notin woken /\ nSpur < MaxSpur
   /\ nSpur' = nSpur + 1
   /\ g' = IF msgQ # <<>> \/ netIn # <<>> THEN Bad(<<"C16", "work-without-wakeup">>) ELSE g
   /\ Sch([a |-> "poll", t |-> "ctx", k |-> 0])
-  /\ UNCHANGED <<S, msgQ, netIn, netEnd, ph, cret, ops, sts, nextPid, nextSid, handles, bk, bq2, nIn, nCancel, nTag, woken>>
+  /\ UNCHANGED <<S, msgQ, netIn, netEnd, ph, cret, ops, sts, nextPid, nextSid, handles, bk, bq2, nIn, nCancel, nTag, resumeQ, nResume, woken>>
 
 CtxDrop ==        \* the Context value is dropped (C14)
   /\ ph \in {"run", "ret"} /\ "ctxdrop" \in Endings
@@ -363,7 +376,53 @@ CtxDrop ==        \* the Context value is dropped (C14)
   /\ woken' = (woken \ {CtxT}) \cup (IF D("KeepSenderOnDrop") THEN {} ELSE {Task("op", o) : o \in {p \in Ops : ops[p].st \in {"wait1", "wait2"}}})
                                 \cup {Task("st", o) : o \in {p \in Ops : sts[p].pollable}}
   /\ Sch([a |-> "drop", t |-> "ctx", k |-> 0])
-  /\ UNCHANGED <<S, netIn, netEnd, cret, nextPid, nextSid, handles, bk, bq2, nIn, nCancel, nSpur, nTag, g>>
+  /\ UNCHANGED <<S, netIn, netEnd, cret, nextPid, nextSid, handles, bk, bq2, nIn, nCancel, nSpur, nTag, resumeQ, nResume, g>>
+
+\* ---------------------------------------------------------------------------------------------
+\* session resumption (C17): the connection was lost (run() returned SocketClosed), a disconnection is recorded
+\* `age` ("before" | "after" the expiry interval has elapsed) and the context is connected and run again
+
+ResumeWritesD(St) ==
+  LET ref == ResumeWrites(IF D("KeepPublishAfterPubrec") THEN [St EXCEPT !.inflight = g.everSent] ELSE St) IN
+  IF D("ResendReversed") THEN [i \in 1..Len(ref) |-> ref[Len(ref) + 1 - i]]
+  ELSE IF D("ResendWithoutDup") THEN [i \in 1..Len(St.inflight) |-> St.inflight[i].pk] ELSE ref
+
+Reconnect(age) ==
+  /\ "resume" \in Endings /\ ph = "ret" /\ cret # <<>> /\ cret[1].kind = "SocketClosed" /\ nResume < 1
+  /\ LET expiredRef == SessionExpired(g.sei, 1, IF age = "after" THEN 2 ELSE 0)
+         expired == IF D("InvertedExpiry") /\ g.sei = "finite" THEN ~expiredRef ELSE expiredRef
+     IN
+     /\ S' = IF expired THEN [InitS(Rmax, Msz) EXCEPT !.rx2 = S.rx2, !.loose = TRUE]
+              ELSE [S EXCEPT !.quota = Rmax, !.loose = TRUE]
+     /\ ops' = IF expired
+               THEN [o \in Ops |-> IF \E i \in 1..Len(S.await) : S.await[i].op = o THEN [ops[o] EXCEPT !.slot = <<Cancelled>>] ELSE ops[o]]
+               ELSE ops
+     /\ sts' = IF expired THEN [o \in Ops |-> [sts[o] EXCEPT !.tx = FALSE]] ELSE sts
+     /\ resumeQ' = IF expired THEN <<>> ELSE ResumeWritesD(S)
+     /\ woken' = woken \cup {CtxT}
+                  \cup (IF expired THEN {Task("op", S.await[i].op) : i \in 1..Len(S.await)} \cup {Task("st", o) : o \in {q \in Ops : sts[q].pollable}} ELSE {})
+     /\ g' = [g EXCEPT !.owed = IF expiredRef THEN <<>> ELSE [i \in 1..Len(g.unacked) |-> IF g.unacked[i].t = "PUBLISH" THEN [g.unacked[i] EXCEPT !.dup = 1] ELSE g.unacked[i]],
+                        !.unacked = IF expiredRef THEN <<>> ELSE @,
+                        !.out = IF expiredRef THEN 0 ELSE @,
+                        !.ids = IF expiredRef THEN {} ELSE @,
+                        !.req = IF expiredRef THEN <<>> ELSE @,
+                        !.bad = @ \cup (IF expiredRef /\ ~expired THEN {<<"C17", "resumed-an-expired-session">>}
+                                       ELSE IF ~expiredRef /\ expired THEN {<<"C17", "abandoned-an-unexpired-session">>} ELSE {})]
+  /\ ph' = "run" /\ cret' = <<>> /\ netEnd' = "open" /\ netIn' = <<>> /\ bk' = {} /\ nResume' = nResume + 1
+  /\ Sch([a |-> "resume", age |-> age, sei |-> g.sei])
+  /\ UNCHANGED <<msgQ, nextPid, nextSid, handles, bq2, nIn, nCancel, nSpur, nTag>>
+
+CtxResend ==      \* the first thing run() does on the new connection
+  /\ CtxCanStepAny /\ resumeQ # <<>>
+  /\ LET pk == Head(resumeQ)
+         ackt == AckTypeFor(pk.t, pk.qos)
+         owner == LET k == FirstIdx(S.await, LAMBDA e : e.key = <<ackt, pk.id>>) IN IF k = 0 THEN 0 ELSE S.await[k].op
+     IN /\ bk' = bk \cup {<<ackt, pk.id, owner>>}
+        /\ g' = [g EXCEPT !.bad = @ \cup (IF g.owed = <<>> \/ Head(g.owed) # pk THEN {<<"C17", "retransmission-differs">>} ELSE {}),
+                           !.owed = IF @ = <<>> THEN @ ELSE Tail(@)]
+  /\ resumeQ' = Tail(resumeQ)
+  /\ Sch([a |-> "poll", t |-> "ctx", k |-> 0])
+  /\ UNCHANGED <<S, msgQ, netIn, netEnd, ph, cret, ops, sts, nextPid, nextSid, handles, bq2, nIn, nCancel, nSpur, nTag, nResume, woken>>
 
 \* ---------------------------------------------------------------------------------------------
 \* the broker and the transport
@@ -375,7 +434,7 @@ BrokerAck(r, rc) ==
   /\ bk' = bk \ {r}
   /\ woken' = woken \cup {CtxT}
   /\ Sch([a |-> "pkt", pk |-> [t |-> r[1], id |-> [op |-> r[3]], rc |-> rc, rcs |-> <<0>>]])
-  /\ UNCHANGED <<S, msgQ, netEnd, ph, cret, ops, sts, nextPid, nextSid, handles, bq2, nIn, nCancel, nSpur, nTag, g>>
+  /\ UNCHANGED <<S, msgQ, netEnd, ph, cret, ops, sts, nextPid, nextSid, handles, bq2, nIn, nCancel, nSpur, nTag, resumeQ, nResume, g>>
 
 \* inbound PUBLISH: new message, or (QoS 2) the re-delivery of an unreleased one
 BrokerPublish(q, id, dup, sidsel) ==
@@ -397,7 +456,7 @@ BrokerPublish(q, id, dup, sidsel) ==
                                       sids |-> [i \in 1..Len(sids) |-> [sub |-> (CHOOSE r \in g.subs : r[1] = sids[i])[2]]]]])
   /\ nIn' = nIn + 1
   /\ woken' = woken \cup {CtxT}
-  /\ UNCHANGED <<S, msgQ, netEnd, ph, cret, ops, sts, nextPid, nextSid, handles, bk, nCancel, nSpur, g>>
+  /\ UNCHANGED <<S, msgQ, netEnd, ph, cret, ops, sts, nextPid, nextSid, handles, bk, nCancel, nSpur, resumeQ, nResume, g>>
 
 BrokerPubrel(id) ==
   /\ nIn < MaxIn /\ netEnd = "open" /\ ph # "gone" /\ \E b \in bq2 : b[1] = id
@@ -406,7 +465,7 @@ BrokerPubrel(id) ==
   /\ nIn' = nIn + 1
   /\ woken' = woken \cup {CtxT}
   /\ Sch([a |-> "pkt", pk |-> [t |-> "PUBREL", id |-> id, rc |-> 0]])
-  /\ UNCHANGED <<S, msgQ, netEnd, ph, cret, ops, sts, nextPid, nextSid, handles, bk, nCancel, nSpur, nTag, g>>
+  /\ UNCHANGED <<S, msgQ, netEnd, ph, cret, ops, sts, nextPid, nextSid, handles, bk, nCancel, nSpur, nTag, resumeQ, nResume, g>>
 
 ServerDisconnect(rc) ==
   /\ "srvdisc" \in Endings /\ netEnd = "open" /\ ph = "run" /\ rc \in {0, 139}
@@ -414,7 +473,7 @@ ServerDisconnect(rc) ==
   /\ netIn' = Append(netIn, [NoPk EXCEPT !.t = "DISCONNECT", !.rc = rc])
   /\ woken' = woken \cup {CtxT}
   /\ Sch([a |-> "pkt", pk |-> [t |-> "DISCONNECT", rc |-> rc], form |-> 2])
-  /\ UNCHANGED <<S, msgQ, netEnd, ph, cret, ops, sts, nextPid, nextSid, handles, bk, bq2, nIn, nCancel, nSpur, nTag, g>>
+  /\ UNCHANGED <<S, msgQ, netEnd, ph, cret, ops, sts, nextPid, nextSid, handles, bk, bq2, nIn, nCancel, nSpur, nTag, resumeQ, nResume, g>>
 
 Eof ==
   /\ "eof" \in Endings /\ netEnd = "open" /\ ph = "run"
@@ -422,12 +481,13 @@ Eof ==
   /\ woken' = woken \cup {CtxT}
   /\ g' = [g EXCEPT !.causes = @ \cup {"eof"}]
   /\ Sch([a |-> "eof"])
-  /\ UNCHANGED <<S, msgQ, netIn, ph, cret, ops, sts, nextPid, nextSid, handles, bk, bq2, nIn, nCancel, nSpur, nTag>>
+  /\ UNCHANGED <<S, msgQ, netIn, ph, cret, ops, sts, nextPid, nextSid, handles, bk, bq2, nIn, nCancel, nSpur, nTag, resumeQ, nResume>>
 
 Next ==
   \/ \E o \in Ops, k \in Kinds : Call(o, k)
   \/ \E o \in Ops : PollOp(o) \/ SpurPollOp(o) \/ DropOp(o) \/ PollSt(o) \/ SpurPollSt(o) \/ DropSt(o)
   \/ DropHandle
+  \/ CtxResend \/ (\E age \in {"before", "after"} : Reconnect(age))
   \/ CtxTakeMsg \/ CtxTakePkt \/ CtxSeesEnd \/ CtxSeesNoHandles \/ CtxReturn \/ CtxYield \/ CtxSpur \/ CtxDrop
   \/ \E r \in bk, rc \in Reasons \cup {0} : BrokerAck(r, rc)
   \/ \E q \in InQos, id \in InIds, dup \in {0, 1}, ss \in SUBSET Ops : BrokerPublish(q, id, dup, ss)
@@ -462,6 +522,9 @@ Inv_C14 == /\ ~PropBad("C14")
                               /\ \A o \in Ops : ~sts[o].tx)
 Inv_C15 == ~PropBad("C15")
 Inv_C16 == ~PropBad("C16")
+\* C17: what is re-sent is exactly what was sent and not acknowledged, in order, DUP set, before any new traffic;
+\* once the actor is idle again on the resumed connection nothing is owed any more
+Inv_C17 == ~PropBad("C17") /\ ((ph = "run" /\ resumeQ = <<>> /\ nResume > 0 /\ CtxT \notin woken) => g.owed = <<>>)
 
 \* C16, first half: whenever a task can make progress its waker has fired
 NoLostWakeup ==
@@ -492,7 +555,7 @@ Closed == sched # <<>> /\ sched[Len(sched)].a = "settle"
 Finish ==
   /\ ~Closed /\ (Len(sched) >= MaxSched \/ ~ENABLED Next)
   /\ sched' = Append(sched, [a |-> "settle"])
-  /\ UNCHANGED <<S, msgQ, netIn, netEnd, ph, cret, ops, sts, nextPid, nextSid, handles, bk, bq2, nIn, nCancel, nSpur, nTag, woken, g>>
+  /\ UNCHANGED <<S, msgQ, netIn, netEnd, ph, cret, ops, sts, nextPid, nextSid, handles, bk, bq2, nIn, nCancel, nSpur, nTag, resumeQ, nResume, woken, g>>
 SimSpec == Init /\ [][(~Closed /\ Len(sched) < MaxSched /\ Next) \/ Finish]_vars
 Export == ~Closed \/ PrintT("SCHED " \o ToJson(sched))
 =============================================================================
